@@ -58,11 +58,11 @@ Proof.
   intros. unfold cw, log_event, upd_run; simpl. apply cwl_update_le. intros r. rewrite nwaits_add_event. lia.
 Qed.
 
-Lemma cw_log_wait : forall x ri sr tmo, (ri < length (s_runs (session_ x)))%nat ->
-  cw (log_event x ri sr (EMsgWait tmo)) = S (cw x).
+Lemma cw_log_wait : forall x ri sr k, is_wait_event k = true -> (ri < length (s_runs (session_ x)))%nat ->
+  cw (log_event x ri sr k) = S (cw x).
 Proof.
-  intros. unfold cw, log_event, upd_run; simpl. apply cwl_update_plus; auto.
-  intros r. rewrite nwaits_add_event. simpl. lia.
+  intros x ri sr k Hk H. unfold cw, log_event, upd_run; simpl. apply cwl_update_plus; auto.
+  intros r. rewrite nwaits_add_event. simpl. rewrite Hk. lia.
 Qed.
 
 Lemma cw_fail_run_le : forall x ri sr c, (cw x <= cw (fail_run x ri sr c))%nat.
@@ -184,8 +184,8 @@ Proof.
     destruct bw as [x4|] eqn:Ebw end.
   - intros H; inversion H; subst.
     assert (H4 : cw x4 = S (cw x3)).
-    { destruct (n_router n) as [rt|]; [|discriminate]. destruct (rt_wait rt) as [[[] tmo]|]; try discriminate.
-      dmatch_hyp Ebw; [discriminate|]. inversion Ebw; subst. apply cw_log_wait. lia. }
+    { destruct (n_router n) as [rt|]; [|discriminate]. destruct (rt_wait rt) as [[[] tmo]|]; try discriminate; try (dmatch_hyp Ebw; [discriminate|]); inversion Ebw; subst.
+      all: (apply cw_log_wait; [reflexivity|lia]). }
     assert (H5 : cw (with_session x4 (fun s => set_status (upd_run s ri (run_set_status RWaiting)) SWaiting)) = cw x4).
     { change (cw (with_session x4 (fun s => upd_run s ri (run_set_status RWaiting))) = cw x4). apply cw_upd_same. reflexivity. }
     rewrite H5. split; [lia|intros; lia].
